@@ -96,7 +96,11 @@ STR_RULE = ('New plain strings are words/blanks/the empty string and (30% of the
             'as single replace/insert/append piece) LaTeX source out of lib_edit.SRC_STRS: commands separated from their '
             'argument group by a blank or a line break, a fixed-signature command with a bare token, unbalanced fragments '
             '(\\begin{x}, \\[, {, }, \\foo{), a lone backslash, a comment; a string is spliced in verbatim as one text '
-            'leaf (never parsed). Multi-piece replace/insert with an empty string in first / middle position '
+            'leaf (never parsed). A whole parsed document as one piece (TexSoup(src) itself, lib_edit.DOC_SRCS: blank-only text '
+            'between / before / behind its top-level elements, a single blank), alone and among other pieces, for '
+            'replace/insert/append: its full text is spliced in (the model splices its elements where the implementation '
+            'nests its root, so only the serialisations are compared for these edits). Three pieces inserted at an index '
+            'beyond the end (len+1, len+10, 99, 1000) arrive in the given order. Multi-piece replace/insert with an empty string in first / middle position '
             '(EMPTY_PIECES) at the front and in the middle of a container. ')
 
 
@@ -174,8 +178,26 @@ def single_edits(base, rng, cap=None):
         for m in EMPTY_PIECES:
             for variant in (1, 0):
                 out.append(('rep', 'rep %s %s' % (L.show_path(path), m), variant, True))
+    # whole parsed documents handed in as one piece (d:), alone and among other pieces
+    if targets:
+        dsrc = L.DOC_SRCS if cap is None else rng.sample(L.DOC_SRCS, 3)
+        for st in dsrc:
+            path, x = rng.choice(targets)
+            m = rng.choice(['d:%s', 's:' + enc('Fig. ') + ',d:%s', 'd:%s,n:' + enc('\\x')]) % enc(st)
+            for variant in (1, 0):
+                out.append(('rep', 'rep %s %s' % (L.show_path(path), m), variant, True))
     good = [c for c in containers if not L.refuses_contents(c[2])]
     if good:
+        dsrc = L.DOC_SRCS if cap is None else rng.sample(L.DOC_SRCS, 3)
+        for st in dsrc:
+            path, ln, x = rng.choice(good)
+            out.append(('ins', 'ins %s %d d:%s' % (L.show_path(path), rng.randint(0, ln), enc(st)), 0, True))
+            out.append(('app', 'app %s d:%s,s:%s' % (L.show_path(path), enc(st), enc('s')), 0, True))
+        # several pieces at an index beyond the end: appended in the given order (list.insert clamps)
+        for path, ln, x in (good if cap is None else rng.sample(good, min(3, len(good)))):
+            for i in ([ln + 1, ln + 10, 99, 1000] if cap is None else [L.past_end(rng, ln)]):
+                out.append(('ins', 'ins %s %d n:%s,s:%s,n:%s' % (L.show_path(path), i, enc('\\p{1}'), enc('txt'),
+                                                                 enc('\\q{2}')), 0, True))
         srcs = L.SRC_STRS if cap is None else rng.sample(L.SRC_STRS, 4)
         for st in srcs:
             path, ln, x = rng.choice(good)
@@ -246,7 +268,7 @@ def _corr_unit(unit):
         n += 1
         kinds['transplant'] = kinds.get('transplant', 0) + 1
         hashes.append(_crc(doc, ';'.join(ops), variant))
-        if a != m and len(fails) < 3:
+        if not L.same_answer(a, m, ops) and len(fails) < 3:
             fails.append({'key': 'model-mismatch-transplant', 'what': L.explain(doc, ops)[:700],
                           'input': {'doc': doc, 'ops': ops, 'variant': variant, 'hist': True}})
     for (doc, base, kind, op, variant, nt), m in zip(cases, model):
@@ -255,7 +277,7 @@ def _corr_unit(unit):
         kinds[kind] = kinds.get(kind, 0) + 1
         if nt:
             hashes.append(_crc(doc, op, variant))
-        if a != m and len(fails) < 3:
+        if not L.same_answer(a, m, [op]) and len(fails) < 3:
             fails.append({'key': 'model-mismatch-' + kind,
                           'what': L.explain(doc, [op])[:600],
                           'input': {'doc': doc, 'ops': [op], 'variant': variant}})
